@@ -75,6 +75,7 @@ var defaultPure = []string{
 	"google.golang.org/protobuf/encoding/protojson.", "google.golang.org/protobuf/proto.", "(*github.com/bmeg/grip/log.",
 	"(error).Error", "error.Error", "github.com/mitchellh/hashstructure/v2.", "encoding/binary.", "(encoding/binary.", "os.Getenv",
 	"github.com/kennygrant/sanitize.", "github.com/bmeg/grip/util/protoutil.",
+	"go.mongodb.org/mongo-driver/bson.", "go.mongodb.org/mongo-driver/bson/primitive.",
 	// the SQL database is outside the model: its client library neither reads nor writes modelled state
 	// (the Scan family writes through its arguments and is therefore not in this list)
 	"(*database/sql.DB).Exec", "(*database/sql.DB).Query", "(*database/sql.DB).Begin", "(*database/sql.DB).Close", "(*database/sql.DB).Prepare",
